@@ -123,6 +123,9 @@ class Check:
         targets = ["Properties/%s.vo" % self.pid]
         if os.path.exists(os.path.join(COQ, "Witness", self.pid + ".v")):
             targets.append("Witness/%s.vo" % self.pid)
+        # models used by the case shards (kept going: another property's broken model must not disturb this one)
+        models = sorted("Model/" + os.path.basename(f) + "o" for f in glob.glob(os.path.join(COQ, "Model", "*.v")))
+        sh(["make", "-k", "-j16"] + models, cwd=COQ, timeout=self.cfg.get("proof_timeout", 1500))
         rc, out, dt = sh(["make", "-j16"] + targets, cwd=COQ, timeout=self.cfg.get("proof_timeout", 1500))
         if rc != 0:
             m = re.search(r'File "\./([^"]+)", line (\d+)[^\n]*\n(.*?)(?:\nmake|\Z)', out, flags=re.S)
